@@ -57,7 +57,12 @@ static cstl_weak_ptr_t wk[MAXT][MAXO];
 static void * blk_data, * blk_mem;
 static size_t blk_data_sz;
 static int data_dead, mem_cleared, mem_freed;
+static struct { void * p; size_t sz; } mlog[8];
 static int nmalloc;
+/* the counters are identified by what they do, not by name, field order or
+   initialisation order: atomic_init registers them, set-up then finds out
+   which one a weak reference increments (= soft; the other one is hard) */
+static const volatile atomic_size_t * var_init[4];
 static const volatile atomic_size_t * var_hard, * var_soft;
 static volatile atomic_flag * var_lock;
 static int ninit;
@@ -112,7 +117,7 @@ size_t shadow_size_op(enum shadow_kind k, const volatile atomic_size_t * p, size
     int lab = L_OTHER;
 
     if (k == SHK_INIT) {
-        if (ninit == 0) var_hard = p; else if (ninit == 1) var_soft = p;
+        if (ninit < 4) var_init[ninit] = p;
         ninit++;
         q->v = arg;
         return 0;
@@ -154,9 +159,8 @@ int shadow_sched_yield(void)
 void * __wrap_malloc(size_t sz)
 {
     void * p = __real_malloc(sz);
-    if (w_active && cur < 0) {
-        if (nmalloc == 0) { blk_data = p; blk_data_sz = sz; }
-        else if (nmalloc == 1) blk_mem = p;
+    if (w_active && cur < 0 && nmalloc < 8) {
+        mlog[nmalloc].p = p; mlog[nmalloc].sz = sz;
         nmalloc++;
     }
     return p;
@@ -332,6 +336,21 @@ static void run_case(const struct h_case * c)
     linelen = 0; line[0] = 0;
     cstl_shared_ptr_alloc(&tmp, 64, clr_cb);
     if (cstl_shared_ptr_get(&tmp) == NULL) { printf("badcase alloc\n"); w_active = 0; return; }
+    /* which block is which: the shared pointer object points at the
+       bookkeeping block, get() returns the managed memory */
+    blk_data = tmp.data.ptr;
+    blk_mem = cstl_shared_ptr_get(&tmp);
+    for (k = 0; k < nmalloc; k++) if (mlog[k].p == blk_data) blk_data_sz = mlog[k].sz;
+    /* which counter is which: a weak reference counts in soft only */
+    if (ninit == 2 && blk_data_sz > 0) {
+        DECLARE_CSTL_WEAK_PTR(probe);
+        const size_t v0 = var_init[0]->v, v1 = var_init[1]->v;
+        cstl_weak_ptr_from(&probe, &tmp);
+        if (var_init[0]->v == v0 + 1 && var_init[1]->v == v1) { var_soft = var_init[0]; var_hard = var_init[1]; }
+        else if (var_init[1]->v == v1 + 1 && var_init[0]->v == v0) { var_soft = var_init[1]; var_hard = var_init[0]; }
+        cstl_weak_ptr_reset(&probe);
+    }
+    if (var_hard == NULL || var_soft == NULL || var_lock == NULL) { printf("badcase identify\n"); w_active = 0; return; }
     for (t = 0; t < nthreads; t++) {
         for (k = 0; k < cfg[t][0]; k++) cstl_shared_ptr_share(&tmp, &sh[t][k]);
         for (k = 0; k < cfg[t][2]; k++) cstl_weak_ptr_from(&wk[t][k], &tmp);
